@@ -77,7 +77,8 @@ ShapePos      == {"query_number", "query_null", "query_array", "query_missing", 
 ContentTypes  == {"text/plain", "application/x-www-form-urlencoded", "///", "multipart/form-data", "application/json; charset=utf-16",
                   "application/graphql", "APPLICATION/JSON", "application/json;;;", "*/*"}
 MpPos         == {"no_operations", "no_map", "map_not_json", "map_wrong_shape", "map_array", "map_missing_file", "map_unknown_var",
-                  "map_not_variables", "map_empty_path", "map_dots", "map_deep_path", "map_index_huge", "map_index_neg", "map_many_paths",
+                  "map_not_variables", "map_empty_path", "map_dots", "map_deep_path", "map_index_huge", "map_index_neg", "map_index_oob",
+                  "map_many_paths",
                   "file_without_map", "file_before_operations", "dup_operations", "dup_file", "batch_index_oob", "batch_index_bad",
                   "marker_with_file", "marker_alias_file", "no_boundary_param", "wrong_boundary", "empty_boundary", "huge_boundary",
                   "empty_body", "only_close", "part_bad_content_type", "part_multipart_content_type", "part_no_name", "part_no_disposition",
@@ -104,14 +105,15 @@ DocCases ==
   \cup {C("nest_sel", p, k, t) : p \in {"field", "inline", "fragment_def", "unclosed"}, k \in Depths, t \in HeavyTransports}
   \cup {C("nest_vartype", p, k, t) : p \in {"list", "nonnull"}, k \in Depths, t \in HeavyTransports}
   \cup {C(cl, p, k, t) : cl \in {"frag_chain", "frag_cycle"}, p \in {"spread", "unused"}, k \in Depths, t \in HeavyTransports}
-  \cup {C2("big_number", ty, l, k, t) : ty \in InTypes \ {"upload", "inp", "list", "enum", "boolean"}, l \in NumberLits,
-                                                 k \in {12, 13, 400, 401}, t \in {"execute", "json"}}
+  \* k digits; k even: a literal in the document, k odd: a JSON number in the variables
+  \cup {C2("big_number", ty, l, k, "execute") : ty \in InTypes \ {"upload", "inp", "list", "enum", "boolean"}, l \in NumberLits, k \in {12, 400}}
+  \cup {C2("big_number", ty, l, k, "json") : ty \in InTypes \ {"upload", "inp", "list", "enum", "boolean"}, l \in NumberLits, k \in {13, 401}}
   \cup {C("bad_string", p, k, t) : p \in BadStrings, k \in {0, 1}, t \in Transports}
   \cup {C("bad_string", p, 2, t) : p \in BadStrings \ NoJsonSpelling, t \in Wire}
   \cup {C("undefined_type", p, 0, t) : p \in UndefinedPos, t \in Transports}
   \cup {C("huge_name", p, k, t) : p \in HugeNamePos, k \in Sizes, t \in HeavyTransports}
   \cup {C("flood", p, k, t) : p \in FloodPos, k \in Sizes, t \in HeavyTransports}
-  \cup {C2("wrong_kind", ty, kd, 0, t) : ty \in InTypes, kd \in JsonKinds, t \in {"execute", "json", "ws"}}
+  \cup {C2("wrong_kind", ty, kd, 0, t) : ty \in InTypes, kd \in JsonKinds, t \in HeavyTransports}
   \cup UNION {{C("bad_document", p, k, t) : k \in KOf(Sized(p)), t \in Transports} : p \in BadDocs}
   \cup {C("request_ext", p, 0, t) : p \in ExtPos, t \in Transports}
   \cup {C("request_ext_noquery", p, 0, t) : p \in {"apq_unknown_hash", "apq_version_2"}, t \in Transports}
@@ -166,9 +168,11 @@ RefusedAt(c) ==
          IF p \in {"empty", "whitespace", "only_comment", "nul", "lone_brace", "close_brace", "unknown_token", "dollar", "at", "ellipsis",
                    "colon", "number_name", "non_ascii_name", "astral", "empty_selection", "bang", "variable_in_default", "self_default"}
          THEN "parse"
-         ELSE IF p \in {"schema_def", "two_anonymous", "subscription_multi_root", "dup_variable", "include_wrong_type", "skip_no_arg"}
+         ELSE IF p \in {"schema_def", "two_anonymous", "dup_variable", "include_wrong_type", "skip_no_arg"}
          THEN "validate"
-         ELSE IF p = "skip_var_missing" THEN "coerce" ELSE "free"
+         \* "subscription_multi_root" (spec 5.2.3.1) and "skip_var_missing" (a required variable without a value, spec 6.1.2)
+         \* are invalid requests too, but whether they are refused is what C09 / C06 judge; here they must only not crash.
+         ELSE "free"
     [] cl = "request_ext" -> "free"
     [] cl = "request_ext_noquery" -> "execute"                \* no document and no registered query
     [] cl = "benign" -> IF p = "subscription" THEN "free" ELSE "none"
